@@ -13,12 +13,16 @@ SeqSet(s) == {s[i] : i \in 1..Len(s)}
 
 ---------------------------------------------------------------------------
 (* order on keys *)
-RECURSIVE FirstDiff(_, _, _, _)
-FirstDiff(a, b, i, n) == IF i > n THEN 0 ELSE IF a[i] # b[i] THEN i ELSE FirstDiff(a, b, i + 1, n)
+\* first position where a and b differ, 0 if one is a prefix of the other.  (Not written as a
+\* recursion: TLC re-evaluates lazy arguments of RECURSIVE operators, which is quadratic on
+\* keys of tens of kilobytes; a set of integers is enumerated in increasing order.)
+FirstDiff(a, b) ==
+  LET n == Min2(Len(a), Len(b))
+      D == {i \in 1..n : a[i] # b[i]}
+  IN  IF D = {} THEN 0 ELSE CHOOSE x \in D : \A y \in D : x <= y
 
 LexLess(a, b) ==
-  LET n == Min2(Len(a), Len(b))
-      i == FirstDiff(a, b, 1, n)
+  LET i == FirstDiff(a, b)
   IN  IF i = 0 THEN Len(a) < Len(b) ELSE a[i] < b[i]
 LexLeq(a, b) == a = b \/ LexLess(a, b)
 
@@ -184,25 +188,4 @@ SortKeys(S) == IF S = {} THEN <<>>
                ELSE LET m == CHOOSE x \in S : \A y \in S : LexLeq(x, y) IN <<m>> \o SortKeys(S \ {m})
 MergeKeysDef(srcs) == SortKeys(AllKeys(srcs))
 
----------------------------------------------------------------------------
-(* the builder as a state machine: keys are inserted one by one; an insertion that is not     *)
-(* strictly above the previous key is rejected (error or panic), never silently accepted.     *)
-CONSTANTS KeyUniverse,   \* keys that may be inserted
-          MaxKeys,
-          CheckOrder     \* FALSE = a builder that accepts anything (negative configuration)
-VARIABLES ins, st        \* inserted keys; "building" | "built" | "rejected"
-bvars == <<ins, st>>
-
-BInit == ins = <<>> /\ st = "building"
-BInsert(k) ==
-  /\ st = "building" /\ Len(ins) < MaxKeys
-  /\ IF CheckOrder /\ ins # <<>> /\ ~LexLess(ins[Len(ins)], k)
-     THEN st' = "rejected" /\ UNCHANGED ins
-     ELSE ins' = Append(ins, k) /\ UNCHANGED st
-BFinish == st = "building" /\ st' = "built" /\ UNCHANGED ins
-BNext == (\E k \in KeyUniverse : BInsert(k)) \/ BFinish
-BSpec == BInit /\ [][BNext]_bvars
-
-Built == [keys |-> ins, vals |-> [i \in 1..Len(ins) |-> 3 + 7 * i]]
-BuiltIsSorted == st = "built" => WellFormed(Built)
 =============================================================================
